@@ -115,6 +115,24 @@ CHECKS["C14"] = dict(
          "0xffffffff x 6 cb_size values, random mutations: the return value must be a negative error, > sz when the header "
          "is incomplete, or the exact length (>= 44); validate/get_format/tostring must terminate without a signal.",
     note="Memory safety is observed (ASan, exact-size buffers), not proved; tostring runs in a forked child.")
+CHECKS["C19"] = dict(
+    engine="tlc+tracecheck", category=MC, design_ref="DESIGN.md section 4/C19",
+    technique="TLA+ spec (Rotenc.tla) model-checked with TLC on reduced widths; the real rotenc.c walked through the position "
+              "range with bounce / repeated-state / invalid-jump patterns, both readings after every decode validated by TLC "
+              "against TraceRotenc.tla at the real widths",
+    text="TLC checks the whole decoder machine (last x pos x latched x input) for pos mod 2^8; every rotenc_decode of the "
+         "real code in walks crossing the 8-, 14- and 16-bit wrap points in both directions is compared (count and count14) "
+         "with the specification.",
+    note="Quick: windows around the wrap points + 60k random steps; thorough: the entire 16-bit range with 7 bounce patterns.")
+CHECKS["C20"] = dict(
+    engine="tlc+tracecheck", category=MC, design_ref="DESIGN.md section 4/C20",
+    technique="TLA+ spec (Mlog.tla: abstract window + head/slot image, Refines) model-checked with TLC for Cap=4/WrapAt=11; "
+              "systematic and random histories on mlog.c (incl. across the 2^31 fold via the LIBRFN_VERIF hook) validated by "
+              "TLC against TraceMlog.tla with the real constants",
+    text="TLC checks that get_line on the implementation image equals the abstract window for every index in every "
+         "reachable state including the fold; the real code's mlog_get_line for k=-2..257 and mlog_dump are compared after "
+         "every message for counts 0..773 and across two folds of the counter.",
+    note="The fold is reached through mlog_verif_set_count (hook); messages are identified by distinct format strings and arguments.")
 NOT_YET = "check not built yet (work in progress; planned per DESIGN.md section 4)"
 NA = {}
 
